@@ -242,8 +242,7 @@ def m_win(pre, ev, post):
         # object's own book-keeping
         mine = [x for x in pre.sent_log if x.sender == name and x.desc[0] not in ('raw', 'enc') and not x.desc[3]
                 and (x.desc[0] if x.desc[4] else x.desc[1]) == spi]
-        outstanding = (sa.state in REQ_SENT_STATES and mid == sa.my_msg_id and bool(mine) and mine[-1].desc[2] == exch
-                       and mine[-1].desc[5] == mid)
+        outstanding = (sa.state in REQ_SENT_STATES and bool(mine) and mine[-1].desc[2] == exch and mine[-1].desc[5] == mid)
         if outstanding:
             COVER['response:outstanding'] += 1
             post_sa = next((s for s in ep_post.controller.ike_sas if bytes(s.my_spi) == spi), None)
